@@ -1,7 +1,7 @@
-"""C08: a released session leaves nothing behind (allocation accounting exploration)."""
+"""C08: a released session leaves nothing behind (ownership-ledger theorems + per-call live-block correspondence + allocation accounting)."""
 import vlib, session_check, sessions
 
-LEVEL = "exploration"
+LEVEL = "proof"
 
 
 def run(c):
@@ -11,4 +11,7 @@ def run(c):
     c.cov["explanation"] = ("malloc/calloc/realloc/free are wrapped at link time; after of_release_codec_instance and after the application freed exactly what the API says "
                             "it owns (its own buffers, callback buffers, decoded source symbols) the number of live heap blocks must be back to its value before the session; "
                             "double frees are ASan errors; sessions are released after any number of calls, with and without finish, both decoder roles")
-    c.trusted = ["gcc 12 ASan runtime, -Wl,--wrap allocation counters in harness/drv_dec.c", "tools/sessions.py"]
+    c.cov["explanation"] += ("; ownership ledgers (LdpcHeap.v, RSHeap.v): library-owned live blocks after set-up, after every submission call, after finish and after "
+                             "release compared with the extracted model on every session (heap_ledgers_compared)")
+    c.trusted = ["Coq kernel (Properties_C08.v: closed under the global context)", "LdpcHeap.v / RSHeap.v hand-written mirrors of the allocation sites; finish by persistent effect only",
+                 "gcc 12 ASan runtime, -Wl,--wrap allocation counters in harness/drv_dec.c", "tools/sessions.py", "extraction (ExtrOcamlBasic), ocaml/driver.ml"]
